@@ -625,6 +625,9 @@ func runBuf(c *ctx) {
 				if len(got) > 0 {
 					dl = strings.Join(got, ",")
 				}
+				// the answers just sent to the Session Report Requests are still being handled by the loop (they retire
+				// transmit transactions): wait for that before looking at the server's tables from this goroutine
+				e.settle()
 				c.emit("T buf.pkt %x %d %x %s n=%d%s = dldr=%s q=%s", up, pdr, action, ph, n, padT, dl, e.queues(up))
 				pend = nil
 			case x < 75:
